@@ -384,8 +384,23 @@ def model_env(extra=None):
 
 
 def run_model(lines, timeout=None):
+    """The extracted model is a pure function of each line: the batch is dealt out into chunks that run in parallel
+    (the implementation, whose state may carry over from case to case, always runs as one process in the given order)."""
     MODEL_LINES.extend(lines)
-    return run_lines(os.path.join(BUILD, "modelrun"), lines, timeout, env=model_env())
+    exe = os.path.join(BUILD, "modelrun")
+    if len(lines) < 64:
+        return run_lines(exe, lines, timeout, env=model_env())
+    from concurrent.futures import ThreadPoolExecutor
+    k = min(12, max(2, len(lines) // 32))
+    chunks = [lines[i::k] for i in range(k)]          # dealt out like cards: expensive neighbours end up in different chunks
+    with ThreadPoolExecutor(max_workers=len(chunks)) as ex:
+        outs = list(ex.map(lambda c: run_lines(exe, c, timeout, env=model_env()), chunks))
+    res, notes = {}, []
+    for r, n in outs:
+        res.update(r)
+        if n:
+            notes.append(n)
+    return res, "; ".join(notes)
 
 
 KERNEL_HEADER = """From Spg.Base Require Import Prelude Utf8 Bytes.
@@ -401,11 +416,11 @@ def kernel_sample(ctx, k):
     with the implementation.  Returns a dict for the evidence; a failure is a broken correspondence."""
     def light(l):
         f = l.split(" ")
-        if len(l) >= 60000:
+        if len(l) >= 3000:                       # long tapes (hundreds of attempts) are for the extracted program
             return False
-        if len(f) > 2 and f[1] == "recipe":      # big-number arithmetic is slow inside the VM: keep lengths the kernel evaluates in a moment
+        if len(f) > 2 and f[1] in ("recipe", "chargen"):      # big-number arithmetic and long candidates are slow inside the VM
             try:
-                return int(f[2]) <= 200
+                return int(f[2]) <= (200 if f[1] == "recipe" else 64)
             except ValueError:
                 return True
         return True
